@@ -115,6 +115,27 @@ theorem C03_nodelist_release_clears_refusal (l : NL) (slots : List ASlot) (rr : 
   · simp [cacheHit, releaseSlots]
 
 open RPVerif.NodeList in
+/-- **only what is at least as large is refused from memory**: `find_slots` answers from the remembered refusal only
+    when the request asks at least as much per rank and at least as many slots as the request that failed; a smaller
+    request is always searched for - on a pilot where nothing is held it finds what a fresh pilot offers -/
+theorem C03_nodelist_refusal_only_for_larger (l : NL) (rr : RR) (n : Nat) (h : cacheHit l rr n = true) :
+    ∃ frr fn, l.lastFailed = some (frr, fn) ∧ rrGe rr frr = true ∧ fn ≤ n := by
+  unfold cacheHit at h
+  cases hl : l.lastFailed with
+  | none => rw [hl] at h; simp at h
+  | some p =>
+    obtain ⟨frr, fn⟩ := p
+    rw [hl] at h
+    simp only [Bool.and_eq_true, decide_eq_true_eq] at h
+    exact ⟨frr, fn, rfl, h.1, h.2⟩
+
+open RPVerif.NodeList in
+/-- the defect that was repaired (test): after 3 slots were refused on a pilot that has 2, the original comparison
+    (`last failed >= request`) refused a single slot on the empty pilot - with the repaired one it is searched for -/
+example : cacheHit { nodes := [], index := 0, lastFailed := some (⟨1, 16, 0, 16, 60, 0⟩, 3), cpn := 2, gpn := 0, lfsPn := 100, memPn := 0 }
+    ⟨1, 16, 0, 16, 30, 0⟩ 1 = false := by decide
+
+open RPVerif.NodeList in
 /-- **releases from several application threads**: with the code as it is (`Gen.deallocInLock`: `deallocate_slot`
     changes the node inside its lock; `Gen.findSlotBooksInLock`), any interleaving of the threads' requests and
     releases on a node leaves the node the same operations leave one after the other, in the order the lock let them
